@@ -65,6 +65,35 @@ def check(tier, seed):
                                         res.violation('configuration item does not round-trip (group/item/size/value/consumed or key id)',
                                                       {'property': 'C13', 'input': desc, 'packed': packed, 'unpacked': un, 'expected': exp},
                                                       f'c13-rt|{g}|{i}|{bits}|{signed}|{v!r}')
+        # values carried by int subclasses (IntEnum / IntFlag members, bool for wider items) are integers; and the byte order of
+        # the wire format does not follow the host's (sys.byteorder reads 'big' while these run)
+        import enum
+        import sys as sys_
+
+        class Baud(enum.IntEnum):
+            B9600 = 9600
+            B115200 = 115200
+            NEG = -3
+
+        class Flag(enum.IntFlag):
+            A = 1
+            B = 64
+        real_order = sys_.byteorder
+        try:
+            for k_ in range(60 if tier == 'quick' else 2000):
+                bits = rng.choice([8, 16, 32, 64])
+                signed = rng.random() < 0.4
+                v = rng.choice([Baud.B9600, Baud.B115200, Flag.A | Flag.B, Flag.B, True, Baud.NEG if signed else Flag.A])
+                if bits == 8 and int(v) > 127:
+                    v = Flag.B
+                g, i = rng.randrange(256), rng.randrange(4096)
+                sys_.byteorder = 'big' if k_ % 2 else real_order
+                packed = C.guarded(K.impl_pack, g, i, bits, signed, v)
+                sys_.byteorder = real_order
+                cases.append(Case('cfg-pack-int-subclass', 'cpack ' + K.item_token(g, i, bits, signed, int(v)), packed,
+                                  {'group': g, 'item': i, 'bits': bits, 'signed': signed, 'value': repr(v), 'sys.byteorder_reads': 'big' if k_ % 2 else real_order}, kind='pack/int-subclass'))
+        finally:
+            sys_.byteorder = real_order
         # one item OBJECT through several pack() calls with its key changed in between (no stale cached key bytes)
         from ubxlib.cfgkeys import CfgKeyData as CK_
         for _ in range(40 if tier == 'quick' else 2000):
